@@ -2,8 +2,7 @@
     - a slot always holds its records sorted by ticks (stable insertion = sort.Stable's result);
     - the store holds, slot by slot, exactly the records of the commands applied to it (Permutation) —
       nothing is lost or duplicated except commands with index 0 (F2);
-    - without a prevYear misfire (F3) the commands of a request carry every row under its own
-      (year, index) key;
+    - the commands of a request carry every row under its own (year, index) key (F3 fixed);
     - the file state the store denotes lists the decoded records in key order. *)
 From Coq Require Import ZArith List Bool Lia Permutation Sorting.Sorted.
 From Coq.Strings Require Import Byte.
@@ -165,28 +164,27 @@ Variable tf : Z.
 
 Definition entry (r : wrow) : key * rec := (w_key tf r, rec_of encf tf r).
 
-(** WriteRecords without a prevYear misfire files every row under its own key, in request order *)
-Lemma write_records_loop_entries rows : forall y0 pi cc,
-  c_index cc = pi -> f3_loop tf y0 pi (c_year cc) rows = false ->
-  flat_map cmd_entries (write_records_loop encf tf y0 pi cc rows) = cmd_entries cc ++ map entry rows.
+(** WriteRecords files every row under its own key, in request order *)
+Lemma write_records_loop_entries rows : forall py pi cc,
+  c_index cc = pi -> c_year cc = py ->
+  flat_map cmd_entries (write_records_loop encf tf py pi cc rows) = cmd_entries cc ++ map entry rows.
 Proof.
-  induction rows as [|r rest IH]; intros y0 pi cc Hi Hf; cbn [write_records_loop f3_loop] in *.
+  induction rows as [|r rest IH]; intros py pi cc Hi Hy; cbn [write_records_loop] in *.
   - cbn [flat_map map]. now rewrite !app_nil_r.
-  - destruct ((w_index tf r =? pi) && (w_year r =? y0)) eqn:M.
-    + apply orb_false_iff in Hf as [Hy Hf]. apply negb_false_iff, Z.eqb_eq in Hy.
-      apply andb_prop in M as [Mi _]. apply Z.eqb_eq in Mi.
-      rewrite (IH y0 pi (mkCmd (c_year cc) (c_index cc) (c_recs cc ++ [rec_of encf tf r])) Hi Hf). cbn [c_year c_index c_recs].
+  - destruct ((w_index tf r =? pi) && (w_year r =? py)) eqn:M.
+    + apply andb_prop in M as [Mi My]. apply Z.eqb_eq in Mi, My.
+      rewrite (IH py pi (mkCmd (c_year cc) (c_index cc) (c_recs cc ++ [rec_of encf tf r])) Hi Hy). cbn [c_year c_index c_recs].
       unfold cmd_entries at 1. cbn [c_year c_index c_recs]. rewrite map_app, <- app_assoc. cbn [map app].
-      unfold cmd_entries, entry, w_key. rewrite Hy, Hi, Mi. reflexivity.
-    + cbn [flat_map]. rewrite (IH y0 (w_index tf r) (mkCmd (w_year r) (w_index tf r) [rec_of encf tf r]) eq_refl Hf).
+      unfold cmd_entries, entry, w_key. rewrite Hy, Hi, Mi, My. reflexivity.
+    + cbn [flat_map]. rewrite (IH (w_year r) (w_index tf r) (mkCmd (w_year r) (w_index tf r) [rec_of encf tf r]) eq_refl eq_refl).
       unfold cmd_entries at 2. cbn [c_year c_index c_recs map app]. reflexivity.
 Qed.
 
-Lemma write_records_entries rows : f3_misfire tf rows = false ->
+Lemma write_records_entries rows :
   flat_map cmd_entries (write_records encf tf rows) = map entry rows.
 Proof.
-  destruct rows as [|r rest]; [reflexivity|]. cbn [f3_misfire write_records]. intros H.
-  rewrite (write_records_loop_entries rest (w_year r) (w_index tf r) (mkCmd (w_year r) (w_index tf r) [rec_of encf tf r]) eq_refl H). reflexivity.
+  destruct rows as [|r rest]; [reflexivity|]. cbn [write_records].
+  rewrite (write_records_loop_entries rest (w_year r) (w_index tf r) (mkCmd (w_year r) (w_index tf r) [rec_of encf tf r]) eq_refl eq_refl). reflexivity.
 Qed.
 
 (** commands only carry indexes of rows *)
@@ -219,27 +217,26 @@ Qed.
 
 (** the whole history: store = exactly the written rows under their keys *)
 Lemma run_perm_ok hist : forall st, store_ok st ->
-  existsb (f2_row tf) (concat hist) = false -> existsb (f3_misfire tf) hist = false ->
+  existsb (f2_row tf) (concat hist) = false ->
   store_ok (fold_left (write_request encf tf) hist st)
   /\ Permutation (flatten (fold_left (write_request encf tf) hist st)) (flatten st ++ map entry (concat hist)).
 Proof.
-  induction hist as [|rows hist IH]; intros st S F2 F3; cbn [fold_left concat].
+  induction hist as [|rows hist IH]; intros st S F2; cbn [fold_left concat].
   - cbn [map]. rewrite app_nil_r. split; [exact S | reflexivity].
   - cbn [concat] in F2. rewrite existsb_app in F2. apply orb_false_iff in F2 as [F2a F2b].
-    cbn [existsb] in F3. apply orb_false_iff in F3 as [F3a F3b].
     assert (S' : store_ok (write_request encf tf st rows)) by (unfold write_request; now apply apply_cmds_ok).
-    destruct (IH _ S' F2b F3b) as [So P]. split; [exact So|].
+    destruct (IH _ S' F2b) as [So P]. split; [exact So|].
     rewrite P. unfold write_request at 1. rewrite apply_cmds_perm.
-    rewrite (write_records_live rows F2a), (write_records_entries rows F3a).
+    rewrite (write_records_live rows F2a), (write_records_entries rows).
     rewrite map_app, <- app_assoc. reflexivity.
 Qed.
 
 Theorem run_store hist :
-  existsb (f2_row tf) (concat hist) = false -> existsb (f3_misfire tf) hist = false ->
+  existsb (f2_row tf) (concat hist) = false ->
   store_ok (run encf tf hist) /\ Permutation (flatten (run encf tf hist)) (map entry (concat hist)).
 Proof.
-  intros F2 F3. assert (S0 : store_ok []) by (split; constructor).
-  destruct (run_perm_ok hist [] S0 F2 F3) as [S P]. split; [exact S | exact P].
+  intros F2. assert (S0 : store_ok []) by (split; constructor).
+  destruct (run_perm_ok hist [] S0 F2) as [S P]. split; [exact S | exact P].
 Qed.
 
 (* ------------------------------------------------------------------ the file state of a store *)
